@@ -200,6 +200,15 @@ def judge(script_name, api, obs, rerun=False):
     v = obs['verdict']
     if v == 'HANG':
         return ('harness-hang', '')
+    if script_name in ('timed', 'time-of-day') and stop_call is not None and due:
+        # the script sat in a wait that cannot end by itself within the horizon when the stop was issued: the
+        # instruction in progress is that wait, and nothing may begin after it (whether or not the call has returned)
+        requeue_at = what.index('requeue') if 'requeue' in what else len(ev)
+        before = [e for e in ev[:stop_call] if e[2:4] == ('inst', 'j')]
+        later = [e for i, e in enumerate(ev) if stop_call < i < requeue_at and e[2:4] == ('inst', 'j')]
+        if before and before[-1][4] == 'WAIT' and later:
+            return ('instruction-begins-after-a-stop-issued-during-a-wait',
+                    '%d instructions began after the stop was issued while the script waited: %r' % (len(later), later[:2]))
     if stop_ret is not None and due and (job_end is None or job_end > stop_ret):
         # the stop returned while the run was still going: it must end promptly
         after = [e for e in ev[stop_ret:] if e[2:4] == ('inst', 'j') and (rerun is False or True)]
